@@ -141,7 +141,7 @@ struct JumpShape {
     /// opcode whose operand is measured, and which occurrence (0-based) in the top-level function
     opcode: &'static str,
     occurrence: usize,
-    /// operand position: 0 = first 16-bit operand, 1 = second (PushExcHandler)
+    /// operand position: 0 = first 16-bit operand, 1 = second, 2 = third (PushExcHandler)
     operand: usize,
     expect_out: &'static [&'static str],
 }
@@ -153,8 +153,12 @@ fn jump_shapes() -> Vec<JumpShape> {
         JumpShape { name: "loop_back", make: |n| format!("var i = 0;\nwhile i < 2 {{ i += 1; {} }}\nprint(i);\n", filler(n)), opcode: "Loop", occurrence: 0, operand: 0, expect_out: &["2"] },
         // inside a loop the back jump is always the longest distance, so it is the one that can sit on the limit
         JumpShape { name: "for_loop_back", make: |n| format!("var c = 0;\nfor x in [1, 2] {{ c += x; {} }}\nprint(c);\n", filler(n)), opcode: "Loop", occurrence: 0, operand: 0, expect_out: &["3"] },
-        JumpShape { name: "try_size", make: |n| format!("try {{ {} throw \"x\"; }} catch e {{ print(e); }}\nprint(\"after\");\n", filler(n)), opcode: "PushExcHandler", occurrence: 0, operand: 0, expect_out: &["x", "after"] },
-        JumpShape { name: "catch_size", make: |n| format!("try {{ throw \"x\"; }} catch e {{ {} print(e); }} finally {{ print(\"fin\"); }}\n", filler(n)), opcode: "PushExcHandler", occurrence: 0, operand: 1, expect_out: &["x", "fin"] },
+        // a handler names its catch target, its finally target and the end of its statement: the last is
+        // the longest distance and the one that can sit on the limit (filler in the try body, in the catch
+        // block, in the finally block)
+        JumpShape { name: "try_statement_size_body", make: |n| format!("try {{ {} throw \"x\"; }} catch e {{ print(e); }}\nprint(\"after\");\n", filler(n)), opcode: "PushExcHandler", occurrence: 0, operand: 2, expect_out: &["x", "after"] },
+        JumpShape { name: "try_statement_size_catch", make: |n| format!("try {{ throw \"x\"; }} catch e {{ {} print(e); }} finally {{ print(\"fin\"); }}\n", filler(n)), opcode: "PushExcHandler", occurrence: 0, operand: 2, expect_out: &["x", "fin"] },
+        JumpShape { name: "try_statement_size_finally", make: |n| format!("try {{ throw \"x\"; }} catch e {{ print(e); }} finally {{ {} print(\"fin\"); }}\n", filler(n)), opcode: "PushExcHandler", occurrence: 0, operand: 2, expect_out: &["x", "fin"] },
         JumpShape { name: "and_jump", make: |n| format!("fn f() {{ {} return 1; }}\nprint(false && f());\nprint(\"after\");\n", filler(n.min(50))), opcode: "JumpIfFalse", occurrence: 0, operand: 0, expect_out: &["false", "after"] },
     ]
 }
